@@ -51,6 +51,15 @@ def damaged_workspaces(rng, n):
         j = rng.choice(gl)
         t = files[j][1]
         if k == 0:
+            if i % 20 == 10:
+                # a second module with byte-for-byte the text of another one (a copied file, a vendored duplicate, a
+                # template instantiated twice), next to it and in a sub-directory
+                twin = files[j][0][:-6]
+                files.insert(len(gl), [twin + "_twin.gleam", t])
+                if rng.random() < 0.5:
+                    files.insert(len(gl), [os.path.dirname(twin) + "/copies/" + os.path.basename(twin) + ".gleam", t])
+                out.append(Ws([tuple(f) for f in files], "twin-files"))
+                continue
             out.append(Ws([tuple(f) for f in files], "well-formed"))
             continue
         if k == 1:
